@@ -163,24 +163,39 @@ def destOk (s : State) (v : Nat) (d : Loc) : Bool :=
 def shuffleOk (dests : List (Nat × Loc)) (s : State) : Bool :=
   dests.all fun (v, d) => destOk s v d
 
+def varInfoOf (p : FuncValue × Option FuncValue) : VarInfo :=
+  match p.2 with
+  | some o => { srcType := p.1.typeId,
+                dstType := if o.typeId ≠ 0 then o.typeId else if o.isReg then typeIdOfReg o.regType else p.1.typeId }
+  | none => { srcType := p.1.typeId, dstType := p.1.typeId }
+
+def srcLoc (src : FuncValue) : Option Loc :=
+  if src.isReg then some (.reg (groupOf src.regType) src.regId)
+  else if src.isStack then some (.argStack src.stackOffset) else none
+
+def dstLoc (o : FuncValue) : Loc :=
+  if o.isReg then .reg (groupOf o.regType) o.regId else .outStack o.stackOffset
+
+/-- initial machine state: argument `k`, `k+1`, … sits at its source location as an initial token -/
+def initFrom (vis : List VarInfo) : Nat → List (FuncValue × Option FuncValue) → State
+  | _, [] => []
+  | k, (src, dd) :: rest =>
+    match dd, srcLoc src with
+    | some _, some l => (l, initTok vis k) :: initFrom vis (k + 1) rest
+    | _, _ => initFrom vis (k + 1) rest
+
+def destsFrom : Nat → List (FuncValue × Option FuncValue) → List (Nat × Loc)
+  | _, [] => []
+  | k, (_, dd) :: rest =>
+    match dd with
+    | some o => (k, dstLoc o) :: destsFrom (k + 1) rest
+    | none => destsFrom (k + 1) rest
+
 /-- variable infos, initial machine state and destinations of an assignment `(source location, requested destination)*`:
     what `shuffle_correct` and the monitor judge a schedule against -/
 def setup (vals : List (FuncValue × Option FuncValue)) : List VarInfo × State × List (Nat × Loc) :=
-  let vars : List VarInfo := vals.map fun (src, dd) =>
-    match dd with
-    | some o => { srcType := src.typeId,
-                  dstType := if o.typeId ≠ 0 then o.typeId else if o.isReg then typeIdOfReg o.regType else src.typeId }
-    | none => { srcType := src.typeId, dstType := src.typeId }
-  let idx := List.range vals.length
-  let init : State := (idx.zip vals).filterMap fun (i, src, dd) =>
-    match dd with
-    | none => none
-    | some _ =>
-      if src.isReg then some (Loc.reg (groupOf src.regType) src.regId, initTok vars i)
-      else if src.isStack then some (Loc.argStack src.stackOffset, initTok vars i) else none
-  let dests : List (Nat × Loc) := (idx.zip vals).filterMap fun (i, _, dd) =>
-    dd.map fun o => (i, if o.isReg then Loc.reg (groupOf o.regType) o.regId else Loc.outStack o.stackOffset)
-  (vars, init, dests)
+  let vis := vals.map varInfoOf
+  (vis, initFrom vis 0 vals, destsFrom 0 vals)
 
 /-- the judgement: `none` = the schedule contains something the machine does not know; `some b` = post-condition holds / fails -/
 def judge (arch : Arch) (f : FrameIn) (vals : List (FuncValue × Option FuncValue)) (insts : List Inst) : Option Bool :=
